@@ -215,6 +215,10 @@ def run_buildlen(c, P):
 
 def _one_write(c, w, sock, what):
     writes = [e[2] for e in w.log if e[0] == 'write' and e[1] == sock.id]
+    if not writes:
+        c.fail('C03: %s wrote nothing' % what)
     if len(writes) != 1:
-        c.fail('C03: %s performed %d writes (expected exactly one)' % (what, len(writes)))
+        # one frame handed to the socket in several pieces is still one frame, but pieces of an abstract-length payload cannot be
+        # re-assembled by this harness: inconclusive, not a violation (the concrete-length explorations judge the concatenation)
+        raise EngineLimit('%s handed its frame to the socket in %d sendall calls: not decidable with an abstract-length payload' % (what, len(writes)))
     return writes[0]
